@@ -161,7 +161,8 @@ def tlc(spec_dir, module, cfg, name, workers=8, timeout=1800, simulate=None, dep
     out_path = os.path.join(outdir, name + ".out")
     meta = os.path.join(outdir, name + ".meta")
     shutil.rmtree(meta, ignore_errors=True)
-    cmd = ["tlc", "-workers", str(workers), "-metadir", meta, "-cleanup", "-noGenerateSpecTE", "-config", cfg]
+    # -checkpoint 0: the depth-first StateDeque queue used for trace validation cannot checkpoint (TLC aborts after 30 min)
+    cmd = ["tlc", "-workers", str(workers), "-metadir", meta, "-cleanup", "-noGenerateSpecTE", "-checkpoint", "0", "-config", cfg]
     if coverage:
         cmd += ["-coverage", "1"]
     if simulate is not None:
